@@ -859,6 +859,36 @@ def r16_layout_of_every_reader(repo: Repo, rep):
         raise AnalysisError("no reader of a bounding box found")
 
 
+def r17_box_for_the_given_rows(repo: Repo, rep):
+    R = rep.rule("R-C18-17", "a bounding_box that asks another domain for its box hands the parameter rows it was given on to it; a domain whose shape is a geometry object "
+                 "(mesh / polygon attribute) reads the box from that object when asked, not from a copy taken at construction", floor=10,
+                 why="the box of boundary(t) without t is evaluated on the defaults (or fails): not the box of the rows the caller samples; a box stored at construction goes stale when the public mesh is rescaled")
+    dom = repo.cls("problem.domains.domain.Domain")
+    for ci in repo.subclasses(dom, strict=False):
+        fi = ci.methods.get("bounding_box")
+        if fi is None:
+            continue
+        pn = fi.params[1] if len(fi.params) > 1 else None
+        carried = {pn}  # names computed from the given rows (replicated, joined with sampled values ..)
+        for _ in range(4):
+            for n in ast.walk(fi.node):
+                if isinstance(n, ast.Assign) and any(isinstance(x, ast.Name) and x.id in carried for x in ast.walk(n.value)):
+                    carried |= {x.id for t in n.targets for x in ast.walk(t) if isinstance(x, ast.Name)}
+        for c in ast.walk(fi.node):
+            if isinstance(c, ast.Call) and isinstance(c.func, ast.Attribute) and c.func.attr == "bounding_box" and pn is not None:
+                rep.saw(fi)
+                given = list(c.args[:1]) + [k.value for k in c.keywords if k.arg == "params"]
+                ok = any(isinstance(x, ast.Name) and x.id in carried for g in given for x in ast.walk(g))
+                rep.check(R, ok, fi.site(c), fi.fq, f"`{dump(c.func)}` receives the caller's `{pn}`", dump(c)[:90], dump(c)[:90])
+        init = ci.methods.get("__init__")
+        geo = sorted({t.attr for n in ast.walk(init.node) if isinstance(n, ast.Assign) for t in n.targets
+                      if isinstance(t, ast.Attribute) and dump(t.value) == "self" and t.attr in ("mesh", "polygon")}) if init is not None else []
+        if geo:
+            rep.saw(fi)
+            reads = {x.attr for x in ast.walk(fi.node) if isinstance(x, ast.Attribute) and dump(x.value) == "self"}
+            rep.check(R, bool(set(geo) & reads), fi.site(), fi.fq, f"the box is read from the live geometry self.{geo[0]}", f"reads self.{sorted(reads)}", f"box from {sorted(reads)}")
+
+
 def r15_lhs_per_row_per_axis(repo: Repo, rep):
     R = rep.rule("R-C18-15", "Latin-hypercube proposals: the box is evaluated for EVERY parameter row (unconditionally, inside the per-row loop, with that row's parameters) and "
                  "every axis draws its OWN permutation of the strata (randperm inside the per-axis loop)", floor=2,
@@ -905,6 +935,7 @@ def run(repo: Repo, rep):
     r14_point_box(repo, rep)
     r15_lhs_per_row_per_axis(repo, rep)
     r16_layout_of_every_reader(repo, rep)
+    r17_box_for_the_given_rows(repo, rep)
     r10_membership_within_box(repo, rep)
     r9_no_rounding(repo, rep)
     r1_r2_primitives(repo, rep)
